@@ -269,7 +269,7 @@ func Trunc(s string, n int) string { return trunc(s, n) }
 
 // fence installs the resource fences of a worker process.
 func fence() {
-	debug.SetMaxStack(256 << 20)
+	debug.SetMaxStack(64 << 20)
 	var lim syscall.Rlimit
 	lim.Cur, lim.Max = 12<<30, 12<<30
 	syscall.Setrlimit(syscall.RLIMIT_AS, &lim) //nolint:errcheck
